@@ -414,7 +414,7 @@ fn run(tier: &str) -> i32 {
     ctx.run_known_reproducers(&random);
     ctx.run_known_reproducers(&systematic);
     ctx.run_enum(&systematic, cgen::systematic(ctx.thorough()));
-    let n = ctx.n(20_000, 400_000);
+    let n = ctx.n(10_000, 400_000);
     ctx.run_search(&random, n, 4000, 300);
 
     // ---- every boundary class must have been exercised by the random search itself
